@@ -43,6 +43,11 @@ def stripFalsy : Sexp → Sexp
   -- `(histc …)` / `(histgc …)`: the same with the selected variable bound by a condition every element satisfies
   | .list (.atom "histc" :: r) => .list (.atom "hist" :: r)
   | .list (.atom "histgc" :: r) => .list (.atom "hist" :: r)
+  -- `(nthe n)`: `the(...)` over n solutions used as an OPERAND of an enclosing query (evaluated through `_evaluate__`):
+  -- the same three outcomes as at the root
+  | .list [.atom "nthe", n] => .list [.atom "the", n]
+  -- `(runs c n extra)`: the domain is a list of n instances of a Symbol type of which `extra` more are alive elsewhere
+  | .list [.atom "runs", c, n, _] => .list [.atom "run", c, n]
   | s => s
 
 def run (s0 : Sexp) : String :=
@@ -68,6 +73,20 @@ def run (s0 : Sexp) : String :=
       let sp := " ; ".intercalate (kos.map fun k => showSeen (consume k (Quant.spec c sols)))
       both m sp
     | _, _, _ => "error=bad-case"
+  | .list (.atom "histi" :: c :: n :: js) =>
+    -- `(histi <constraint> n j…)`: evaluations of ONE query object advanced in the interleaved order j…
+    match parseConstraint c, n.asNat?, js.mapM Sexp.asNat? with
+    | some c, some n, some js =>
+      let showObs := fun (e : Nat × NextObs Nat) => s!"{e.1}:" ++ (match e.2 with
+        | .value x => toString x | .finished .ok => "ok" | .finished (.err er) => errName er | .exhausted => "stop")
+      let m := " ".intercalate ((interleaved c (List.range n) js []).map showObs)
+      both m m
+    | _, _, _ => "error=bad-case"
+  | .list [.atom "pulls", c, n] =>
+    -- `(pulls <constraint> n)`: elements taken from a lazily produced n-element domain by a full evaluation
+    match parseConstraint c, n.asNat? with
+    | some c, some n => let m := toString (consumed c (List.range n)); both m m
+    | _, _ => "error=bad-case"
   | .list [.atom "the", n] =>
     match n.asNat? with
     | some n => let sols := List.range n; both (showThe (theRun sols)) (showThe (some (theSpec sols)))
